@@ -32,6 +32,9 @@ fn did14(n: u32) -> String {
   } else if (20..25).contains(&n) {
     // the same tag as DID n-20, on another network: a different DID
     format!("did:iota:smr:0x{}", format!("{:02x}", ((n - 20) * 0x11) as u8).repeat(32))
+  } else if (30..35).contains(&n) {
+    // the tag of DID n-30 with the default network spelled out: a valid IOTA DID in NON-normal form, a different string
+    format!("did:iota:iota:0x{}", format!("{:02x}", ((n - 30) * 0x11) as u8).repeat(32))
   } else if n == 9 {
     "did:0:0".to_string()
   } else {
@@ -41,6 +44,8 @@ fn did14(n: u32) -> String {
 fn did14_of(s: &str) -> u32 {
   if s == "did:0:0" {
     9
+  } else if let Some(h) = s.strip_prefix("did:iota:iota:0x") {
+    u32::from_str_radix(&h[..2.min(h.len())], 16).map(|b| 30 + b / 0x11).unwrap_or(999)
   } else if let Some(h) = s.strip_prefix("did:iota:smr:0x") {
     u32::from_str_radix(&h[..2.min(h.len())], 16).map(|b| 20 + b / 0x11).unwrap_or(999)
   } else if let Some(h) = s.strip_prefix("did:iota:0x") {
@@ -541,6 +546,10 @@ fn show_spec(s: &Spec14) -> String {
 }
 
 fn rdid(r: &mut Rng, me: u32, exotic: bool) -> u32 {
+  // controllers in non-normal spelling (they come from JSON; nothing normalises them)
+  if exotic && r.chance(1, 6) {
+    return 30 + r.below(5) as u32;
+  }
   match r.below(10) {
     0..=4 => me,
     5 => (me + 1 + r.below(3) as u32) % 5,
